@@ -277,7 +277,7 @@ func (ex *Exec) builtin(s *State, b *ssa.Builtin, c *ssa.CallCommon, args []Valu
 	case "ssa:wrapnilchk":
 		p := args[0].(*PtrV)
 		var nilG []*Term
-		for _, a := range p.alts {
+		for _, a := range ex.eff(p) {
 			if a.obj == 0 {
 				nilG = append(nilG, a.g)
 			}
@@ -414,7 +414,7 @@ func (ex *Exec) intrinsic(s *State, f *ssa.Function, name string, args []Value, 
 			// permits stores below the pointed-to location while frozen
 			p := ex.ifacePtr(args[0])
 			s.ownHeap()
-			for _, a := range p.alts {
+			for _, a := range ex.eff(p) {
 				if a.obj == 0 {
 					continue
 				}
